@@ -75,7 +75,7 @@ func (e *SeqArrowExpr) Eval(ctx context.Context, local Scope) (_ Value, err erro
 				return nil, WrapContextErr(err, e, local)
 			}
 			if n, is := newChar.(Number); is {
-				if r := rune(n.Float64()); float64(r) == n.Float64() {
+				if r := rune(n.Float64()); r >= 0 && float64(r) == n.Float64() {
 					runes[at] = r
 					continue
 				}
